@@ -5,7 +5,8 @@
 (* so that "nothing is live at the end" can be checked on the real library.  The call whose       *)
 (* outcome the statement leaves open (Ambiguous: the code over-refuses, DESIGN.md 6 #8) is always  *)
 (* followed by a detach, after which both outcomes have led to the same state: the script never   *)
-(* touches an image that one of the allowed outcomes has released.                                *)
+(* touches an image that one of the allowed outcomes has released.  Likewise a thaw, which may     *)
+(* evict any of the cached glyphs, is followed by the removal of every key.                        *)
 (* Used with -generate (random behaviours of depth ~25) and in breadth-first mode (all behaviours *)
 (* of a small depth).  harness/drv_life.c replays the printed call lists.                         *)
 EXTENDS Image, Json
@@ -14,15 +15,17 @@ CONSTANTS Depth
 
 VARIABLES life, hist, kind, must
 
-Ops == {"create", "ref", "unref", "alpha", "transform", "filter", "clip", "destroyfn", "use", "ginsert", "gremove"}
+GenInit == life = LifeInit /\ hist = <<>> /\ kind = "" /\ must = <<>>       \* must: calls that have to come next
 
-GenInit == life = LifeInit /\ hist = <<>> /\ kind = "" /\ must = 0
+RECURSIVE RemoveAll(_)
+RemoveAll(ks) == IF ks = {} THEN <<>>
+                 ELSE LET k == CHOOSE x \in ks : \A y \in ks : x <= y IN <<Call("gremove", 0, k, 0)>> \o RemoveAll(ks \ {k})
 
 Draining == Len(hist) >= Depth
 
 Enabled(S) ==
-    IF must # 0 THEN {Call("alpha", must, 0, 0)}
-    ELSE IF Draining THEN {c \in LifeCalls(S) : c.op = "unref" \/ (c.op = "gremove" /\ c.j \in S.glyphs)}
+    IF must # <<>> THEN {must[1]}
+    ELSE IF Draining THEN {c \in LifeCalls(S) : c.op \in {"unref", "gdestroy"}}
     ELSE LifeCalls(S)
 
 (* two-phase steps: first the kind of call (uniformly among the kinds that have an enabled call), then its arguments *)
@@ -34,13 +37,16 @@ Do == /\ kind # "" /\ kind' = ""
       /\ \E c \in {x \in Enabled(life) : x.op = kind} :
             /\ life' \in LifeStep(life, c)
             /\ hist' = Append(hist, c)
-            /\ must' = IF Ambiguous(life, c) THEN c.i ELSE 0
+            /\ must' = IF must # <<>> THEN Tail(must)
+                       ELSE IF Ambiguous(life, c) THEN <<Call("alpha", c.i, 0, 0)>>
+                       ELSE IF c.op = "gthaw" THEN RemoveAll(GKeys)
+                       ELSE <<>>
 
 GenNext == Choose \/ Do
 
 GenSpec == GenInit /\ [][GenNext]_<<life, hist, kind, must>>
 
-Finished == Draining /\ kind = "" /\ must = 0 /\ Quiescent(life)
+Finished == Draining /\ kind = "" /\ must = <<>> /\ Quiescent(life)
 
 EmitBehaviour == ~Finished \/ PrintT(<<"VF:behaviour", ToJson(hist)>>)
 =============================================================================
